@@ -6,6 +6,7 @@ DISC = ["connect", "discover", "disconnect"]
 CORE = {
     "C01": {
         "approval": True,     # writes that wait for the application's approval: exactly one result each
+        "write_results": True,  # writes decided by the data layer (protected elements ...): error result with and without ackRequest
         "checked": ["out", "panic", "dupout", "rdata", "data", "late"],
         "assumptions": [
             "the datagram is well formed: one command, classifier present, classifier and payload consistent (a result carries resultData, a request does not); the rest belongs to C05",
@@ -164,8 +165,8 @@ CORE = {
                     {"acts": ["sub", "unsub"], "rich": ["sub"], "maxlen": 2, "prefix": "PrefixP1"},
                     {"acts": ["sub", "unsub"], "rich": ["unsub"], "maxlen": 2, "prefix": "PrefixP1"},
                     {"acts": ["sub", "unsub", "listsubs"], "tiny": ["sub", "unsub"], "maxlen": 4, "prefix": "PrefixP1", "view": None},
-                    {"acts": ["sub", "unsub", "setdata", "bind", "write"], "maxlen": 3, "prefix": "PrefixP1P2"}],
-            "sim": [{"acts": DISC + ["sub", "unsub", "listsubs", "entrem", "entadd", "setdata", "bind", "write"], "rich": ["unsub", "listsubs"], "maxlen": 20, "num": 150}],
+                    {"acts": ["sub", "unsub", "setdata", "bind", "write"], "rich": ["setdata"], "maxlen": 3, "prefix": "PrefixP1P2"}],
+            "sim": [{"acts": DISC + ["sub", "unsub", "listsubs", "entrem", "entadd", "setdata", "bind", "write"], "rich": ["unsub", "listsubs", "setdata"], "maxlen": 20, "num": 150}],
             # fault at the SHIP boundary: one of the two peers is mute (sends to it fail); the other one's notifications must not depend on it
             "faults": [{"acts": ["sub", "setdata"], "tiny": ["sub"], "maxlen": 3, "prefix": "PrefixM1P2", "peers": ["m1", "p2"], "view": None},
                        {"acts": ["sub", "setdata"], "tiny": ["sub"], "maxlen": 3, "prefix": "PrefixP1M2", "peers": ["p1", "m2"], "view": None}],
@@ -176,8 +177,8 @@ CORE = {
                    {"acts": ["sub", "unsub", "listsubs", "disconnect"], "rich": ["sub", "unsub"], "maxlen": 4, "prefix": "PrefixP1P2"}],
             "gen": [{"acts": ["sub", "unsub", "listsubs", "disconnect", "entrem", "entadd", "setdata"], "maxlen": 4, "prefix": "PrefixP1P2"},
                     {"acts": ["sub", "unsub", "listsubs"], "rich": ["sub", "unsub"], "maxlen": 3, "prefix": "PrefixP1P2"},
-                    {"acts": ["sub", "unsub", "bind", "write", "setdata"], "maxlen": 4, "prefix": "PrefixP1P2"}],
-            "sim": [{"acts": DISC + ["sub", "unsub", "listsubs", "entrem", "entadd", "setdata", "bind", "write"], "rich": ["unsub", "listsubs"], "maxlen": 30, "num": 3000}],
+                    {"acts": ["sub", "unsub", "bind", "write", "setdata"], "rich": ["setdata"], "maxlen": 4, "prefix": "PrefixP1P2"}],
+            "sim": [{"acts": DISC + ["sub", "unsub", "listsubs", "entrem", "entadd", "setdata", "bind", "write"], "rich": ["unsub", "listsubs", "setdata"], "maxlen": 30, "num": 3000}],
             "faults": [{"acts": ["sub", "unsub", "setdata", "bind", "write"], "tiny": ["sub", "unsub", "bind"], "maxlen": 4, "prefix": "PrefixM1P2", "peers": ["m1", "p2"], "cap": 60000},
                        {"acts": ["sub", "unsub", "setdata", "bind", "write"], "tiny": ["sub", "unsub", "bind"], "maxlen": 4, "prefix": "PrefixP1M2", "peers": ["p1", "m2"], "cap": 60000},
                        {"acts": ["sub", "setdata"], "tiny": ["sub"], "maxlen": 4, "prefix": "PrefixM1P2", "peers": ["m1", "p2"], "view": None, "cap": 60000}],
